@@ -5,7 +5,7 @@ from checks import C07
 
 UNITS = ['Opcodes', 'Codec', 'Verifier', 'Interp', 'JitLogic', 'JitEnc', 'JitArms', 'JitMulDiv', 'JitMisc', 'ClMisc', 'JitFrame']
 MODELS = ['theories/Verifier.vo', 'gen/JitLogic.vo', 'theories/X86Enc.vo', 'gen/JitEnc.vo', 'theories/X86Sem.vo', 'gen/JitArms.vo', 'theories/X86Seq.vo', 'gen/JitMulDiv.vo', 'gen/JitMisc.vo', 'theories/X86Stk.vo', 'gen/JitFrame.vo']
-PROOFS = ['theories/JitLogicProofs.v', 'theories/JitEncProofs.v', 'theories/JitArmsProofs.v', 'theories/JitMulDivProofs.v', 'theories/JitMiscProofs.v', 'theories/JitFrameProofs.v', 'theories/ClMiscProofs.v', 'theories/ClStep.v', 'theories/JitStep.v', 'theories/JitRun.v', 'theories/VerifierProofs.v', 'theories/InterpProofs.v']
+PROOFS = ['theories/JitLogicProofs.v', 'theories/JitEncProofs.v', 'theories/JitArmsProofs.v', 'theories/JitMulDivProofs.v', 'theories/JitMiscProofs.v', 'theories/JitFrameProofs.v', 'theories/ClMiscProofs.v', 'theories/ClStep.v', 'theories/JitStep.v', 'theories/JitRun.v', 'theories/IsaDef.v', 'theories/DefRun.v', 'theories/VerifierProofs.v', 'theories/InterpProofs.v']
 ENGINE = 'jit'
 
 CL_HEADER = '''From Coq Require Import ZArith List Bool.
@@ -119,7 +119,7 @@ def cl_model_correspondence(chk, binary, cases):
 def run(chk, engine=ENGINE, prop='C03'):
     res = vlib.prove(chk, UNITS if prop == 'C03' else ['Opcodes', 'Codec', 'Verifier', 'Interp', 'ClAlu', 'ClJmp', 'ClMem', 'ClMisc', 'ClCfg', 'Clir'],
                      MODELS if prop == 'C03' else ['theories/ClirSem.vo', 'gen/ClAlu.vo', 'gen/ClJmp.vo', 'gen/ClMem.vo', 'gen/ClMisc.vo', 'gen/ClCfg.vo', 'theories/Verifier.vo'], prop,
-                     PROOFS if prop == 'C03' else ['theories/ClAluProofs.v', 'theories/ClJmpProofs.v', 'theories/ClMemProofs.v', 'theories/ClMiscProofs.v', 'theories/ClCfgProofs.v', 'theories/ClStep.v', 'theories/ClRun.v', 'theories/VerifierProofs.v', 'theories/InterpProofs.v'])
+                     PROOFS if prop == 'C03' else ['theories/ClAluProofs.v', 'theories/ClJmpProofs.v', 'theories/ClMemProofs.v', 'theories/ClMiscProofs.v', 'theories/ClCfgProofs.v', 'theories/ClStep.v', 'theories/ClRun.v', 'theories/IsaDef.v', 'theories/DefRun.v', 'theories/VerifierProofs.v', 'theories/InterpProofs.v'])
     found = False
     if res['model_ok']:
         binary = vlib.harness_build('debug')
